@@ -375,6 +375,41 @@ pub fn multiword(rng: &mut impl Rng, reps: usize) {
         multiply_u64_high_word(a, b, &mut hw);
         facts.push(json!({"op": "mul_uint", "x": [a, b, [r[0], hw]], "n": [2], "variant": "high_word"}));
     }
+    // number theory helpers: extended gcd (signed Bezout coefficients), coprimality, non-adjacent form
+    let pairs: Vec<(u64, u64)> = {
+        let mut v: Vec<(u64, u64)> = vec![(1, 1), (1, 0), (0, 1), (12, 18), (17, 5), (5, 17), (1 << 40, 1 << 20), ((1 << 61) - 1, (1 << 31) - 1), (u32::MAX as u64, 65537)];
+        for a in 1..=(if reps == 0 { 12u64 } else { 40 }) {
+            for b in 1..=(if reps == 0 { 12u64 } else { 40 }) {
+                v.push((a, b));
+            }
+        }
+        for _ in 0..(8 + 20 * reps) {
+            let g: u64 = rng.gen_range(1..1 << 12);
+            v.push((g * rng.gen_range(1..1u64 << 30), g * rng.gen_range(1..1u64 << 30)));
+            v.push((rng.gen_range(1..1u64 << 62), rng.gen_range(1..1u64 << 62)));
+        }
+        v
+    };
+    for (a, b) in pairs {
+        match guarded(|| xgcd(a, b)) {
+            Ok((g, x, y)) => facts.push(json!({"op": "xgcd", "x": [a, b, g, x.unsigned_abs(), y.unsigned_abs()], "n": [(x < 0) as u8, (y < 0) as u8]})),
+            Err(_) => facts.push(json!({"op": "xgcd", "x": [a, b], "panic": true})),
+        }
+        if a > 0 && b > 0 {
+            facts.push(json!({"op": "coprime", "x": [a, b, call(|| gcd(a, b))], "n": [call(|| are_coprime(a, b) as u8)]}));
+        }
+    }
+    let mut nafs: Vec<i32> = (-(if reps == 0 { 300 } else { 5000 })..=(if reps == 0 { 300 } else { 5000 })).collect();
+    nafs.extend([16383, -16383, 16384, 32767, -32768, 65535, 1 << 20, (1 << 24) - 1, -(1 << 24) + 5, 0x2AAAAAA, 0x5555555, (1 << 28) + 1, -(1 << 28) - 3]);
+    for _ in 0..(20 + 100 * reps) {
+        nafs.push(rng.gen_range(-(1i32 << 29)..(1i32 << 29)));
+    }
+    for v in nafs {
+        match guarded(|| naf(v)) {
+            Ok(t) => facts.push(json!({"op": "naf", "v": v, "terms": t})),
+            Err(_) => facts.push(json!({"op": "naf", "v": v, "panic": true})),
+        }
+    }
     for chunk in facts.chunks(32) {
         out(json!({"ev": "big", "m": 0, "facts": chunk}));
     }
